@@ -223,14 +223,14 @@ type expKV struct {
 }
 
 type progResult struct {
-	ok      bool
-	why     string    // failure kind (stable, used in signatures)
-	kvs     []expKV   // reported state KV in order (success only)
-	reads   []ReadRec // expected read log (success only)
-	wrote   []string  // state keys written before the end (also on failure)
-	lwrote  []string  // local keys written before the end (also on failure)
-	lseq    []localKV // local writes the program reports, in order
-	badLocal bool     // a reported local key lacks the executor prefix
+	ok       bool
+	why      string    // failure kind (stable, used in signatures)
+	kvs      []expKV   // reported state KV in order (success only)
+	reads    []ReadRec // expected read log (success only)
+	wrote    []string  // state keys written before the end (also on failure)
+	lwrote   []string  // local keys written before the end (also on failure)
+	lseq     []localKV // local writes the program reports, in order
+	badLocal bool      // a reported local key lacks the executor prefix
 }
 
 type localKV struct{ k, v []byte }
